@@ -220,8 +220,9 @@ def run_case(ctx, case):
                 if gotf != want:
                     ctx.fail('header|v5|file_entry-compat', 'expected %r got %r' % (want[:2], gotf[:2]), case)
         else:
-            if [bytes(d) for d in h['include_directory']] != [bytes(d) for d in p['dirs']]:
-                ctx.fail('header|include_directory', 'encoded %r decoded %r' % (p['dirs'], list(h['include_directory'])), case)
+            # (a missing table is a finding to report, not a reason for the harness to stop)
+            if h['include_directory'] is None or [bytes(d) for d in h['include_directory']] != [bytes(d) for d in p['dirs']]:
+                ctx.fail('header|include_directory', 'encoded %r decoded %r' % (p['dirs'], h['include_directory'] and list(h['include_directory'])), case)
         # rows
         rows, deffiles = REF.run(hdrp, p['ops'])
         try:
@@ -233,7 +234,7 @@ def run_case(ctx, case):
             continue
         if p['version'] < 5:
             want = [(bytes(n), d, m, l) for (n, d, m, l) in p['files']] + [(bytes(f[0]), f[1], f[2], f[3]) for f in deffiles]
-            gotf = [(bytes(f.name), f.dir_index, f.mtime, f.length) for f in h['file_entry']]
+            gotf = [(bytes(f.name), f.dir_index, f.mtime, f.length) for f in (h['file_entry'] or [])]
             if gotf != want:
                 ctx.fail('header|file_entry', 'expected %r got %r' % (want[:3], gotf[:3]), case)
         got_rows = [e.state for e in entries if e.state is not None]
